@@ -23,9 +23,14 @@ SPEC = {
 }
 
 
+AXIS_VECS = [(1, 0, 0), (0, 1, 0), (0, 0, 1), (-1, 0, 0), (0, 0, -1), (1, 1, 0), (0, 1, 1)]
+
+
 def setup(rng):
     ub, kind = PL.rand_ub(rng, rng.choice(["triclinic", "hex", "cubicI"]))
     v = np.array([rng.uniform(-1, 1) for _ in range(3)]); w = np.array([rng.uniform(-1, 1) for _ in range(3)])
+    if rng.random() < 0.3:      # reference / surface along crystal or goniometer axes: in the scattering plane or normal to it for the 4-circle positions
+        v = np.array(rng.choice(AXIS_VECS), float); w = np.array(rng.choice(AXIS_VECS), float)
     if np.linalg.norm(v) < 0.2: v = np.array([0.3, 0.2, 1.0])
     if np.linalg.norm(w) < 0.2: w = np.array([0.1, 1.0, 0.2])
     frames = (rng.choice(["hkl", "phi"]), rng.choice(["hkl", "phi"]))
@@ -38,8 +43,11 @@ def apply_vectors(ub, v, w, frames, k1, k2):
 
 
 def rand_pos(rng):
-    if rng.random() < 0.25:
+    r = rng.random()
+    if r < 0.25:
         return [float(rng.choice(PL.SPECIAL)) for _ in range(6)], "special"
+    if r < 0.45:
+        return [float(x) for x in PL.semi_special_position(rng)], "semi-special"
     return [rng.uniform(-180, 180) for _ in range(6)], "generic"
 
 
@@ -139,6 +147,67 @@ def oracle(ctx, widen=1):
                           {"pos": pos, "reference": v.tolist(), "surface": w.tolist(), "frames": list(frames), "UB": np.asarray(ub.UB).tolist()},
                           {"kind": "pseudo-angle", "what": bad.split(" ")[0]})
     ctx.stream("oracle:geometric-definitions", n * 5, len(kinds))
+    # one HklCalculation object, already used, then the UB matrix or the vectors change: the angles must follow the CURRENT state
+    nseq = ctx.scale(120, 6000) * widen
+    kinds2 = set()
+    for it in range(nseq):
+        ub, v, w, frames = setup(ctx.rng)
+        apply_vectors(ub, v, w, frames, 1, 1)
+        hc = HklCalculation(ub, Constraints())
+        pos, regime = rand_pos(ctx.rng)
+        bad = None
+        try:
+            with quiet():
+                hc.get_virtual_angles(Position(*pos))
+                change = ctx.rng.choice(["set_u", "set_lattice", "set_lattice_named", "set_ub", "set_miscut", "calc_ub", "refine_ub", "vectors-other-frame"])
+                if change == "set_u":
+                    ub.set_u(rot_from_rotvec([ctx.rng.uniform(-2, 2) for _ in range(3)]))
+                elif change == "set_lattice":
+                    ub.set_lattice("y", 5.3, 4.4, 7.1, 85, 99, 93)
+                elif change == "set_lattice_named":
+                    ub.set_lattice("y", "Hexagonal", 3.3, 5.6)
+                elif change == "set_ub":
+                    ub.set_ub(rot_from_rotvec([ctx.rng.uniform(-2, 2) for _ in range(3)]) @ np.asarray(ub.crystal.B))
+                elif change == "set_miscut":
+                    ub.set_miscut((0.3, 1.0, -0.2), 7.0, True)
+                elif change == "calc_ub":
+                    B = np.asarray(ub.crystal.B, float); U0 = rot_from_rotvec([ctx.rng.uniform(-2, 2) for _ in range(3)])
+                    for h in ((1, 0, 0), (0, 1, 1)):
+                        ub.add_orientation(h, tuple(float(x) for x in U0 @ B @ np.array(h, float)))
+                    ub.calc_ub()
+                elif change == "refine_ub":
+                    ub.refine_ub((1, 0, 1), Position(0, 35, 5, 12, 40, 20), 1.0, True, True)
+                else:
+                    # the same coordinates, now meant in the other frame
+                    setattr(ub, "n_phi" if frames[0] == "hkl" else "n_hkl", tuple(float(x) for x in v))
+                    setattr(ub, "surf_nphi" if frames[1] == "hkl" else "surf_nhkl", tuple(float(x) for x in w))
+                va = hc.get_virtual_angles(Position(*pos))
+        except Exception as e:  # noqa
+            bad = f"raised {type(e).__name__}: {str(e)[:80]}"
+            va = None
+            change = "?"
+        kinds2.add((change, regime))
+        if va is not None:
+            nphi, sphi = PL.vectors(ub)
+            pp = pseudo(nphi, sphi, pos)
+            th = math.radians(pp["theta"])
+            skip = set()
+            if abs(math.sin(2 * th)) < 1e-4:
+                skip |= {"qaz", "psi", "naz", "tau", "beta"}
+            if abs(math.cos(math.radians(pp.get("alpha", 0.0)))) < 1e-4:
+                skip |= {"naz", "psi"}
+            if abs(math.sin(math.radians(pp.get("tau", 90.0)))) < 1e-4:
+                skip |= {"psi"}
+            for k, val in va.items():
+                if k in skip or k not in pp or math.isnan(val):
+                    continue
+                if angdiff(val, pp[k]) > 1e-6:
+                    bad = f"{k} = {val:.8f} but the geometric definition with the CURRENT UB and vectors gives {pp[k]:.8f}"
+                    break
+        if bad:
+            ctx.violation(f"get_virtual_angles at {tuple(round(x, 4) for x in pos)} on a calculator used before `{change}`: {bad}",
+                          {"pos": pos, "change": change, "frames": list(frames)}, {"kind": "pseudo-angle-after-change", "change": change})
+    ctx.stream("oracle:after-state-change", nseq, len(kinds2))
 
 
 def replay(ctx, data):
